@@ -5,20 +5,22 @@
    `trace ops` every call made on the underlying allocator since (and including) construction, `chks` the allocator's own
    bookkeeping of such a trace (sizes by block id, ids given back). *)
 From Coq Require Import NArith Arith Bool List.
-From CppUVerif Require Import gen.Gen_C18 C18_Model C18_Lists C18_Inv C18_Sim C18_Proofs C18_Hist C18_ModelG C18_GInv C18_GSim C18_GProofs.
+From CppUVerif Require Import gen.Gen_C18 C18_Model C18_Lists C18_Inv C18_Sim C18_Proofs C18_Hist C18_ModelG C18_GInv C18_GSim C18_GProofs C18_ModelE C18_EInv C18_EBooks C18_EProofs C18_EThms.
 Import ListNotations.
 Local Open Scope N_scope.
 
-(* for every scenario of the check's language -- a history of calls on a bare cache (C18_Model) or a history over INSTALLED
-   GlobalSimpleStringCache objects (C18_ModelG) -- the model's observation satisfies the model-free statement of the property:
+(* for every scenario of the check's language -- a history of calls on a bare cache (C18_Model), a history over INSTALLED
+   GlobalSimpleStringCache objects (C18_ModelG), or a history of one object in a scripted ENVIRONMENT (C18_ModelE: which malloc
+   allocator is current at construction / destruction, another string allocator on top, an underlying allocator that re-enters
+   the string allocator) -- the model's observation satisfies the model-free statement of the property:
    no buffer handed out overlaps one in use, capacity >= request, reuse only within the size class, blocks go back at most once,
-   with their size and never while in use, clearCache returns every idle block, clearAll everything obtained since construction,
-   destruction the node array, and the first unknown release (and only it) warns *)
-Theorem C18_run_meets_spec : forall s, xvalid s = true -> xspec s (xrun s) = true.
-Proof. exact xrun_meets_xspec. Qed.
+   with their size, to the allocator they came from and never while in use, clearCache returns every idle block, clearAll
+   everything obtained since construction, destruction the node array, and the first unknown release (and only it) warns *)
+Theorem C18_run_meets_spec : forall s, yvalid s = true -> yspec s (yrun s) = true.
+Proof. exact yrun_meets_yspec. Qed.
 Print Assumptions C18_run_meets_spec.
 
-(* the two halves of it: the bare cache ... *)
+(* the three parts of it: the bare cache ... *)
 Theorem C18_cache_run_meets_spec : forall s, valid s = true -> spec s (run s) = true.
 Proof. exact run_meets_spec. Qed.
 Print Assumptions C18_cache_run_meets_spec.
@@ -41,7 +43,7 @@ Print Assumptions C18_installed_run_meets_spec.
    calls is legal in the recorder's own books, no block went back twice, and every block the recorder ever handed out is back
    -- except buffers requested with nothing installed that are still in use *)
 Theorem C18_installed_all_returned : forall sc, gvalid sc = true ->
-  exists sf, gfinal sc = Some sf /\ q_lv sf = [] /\
+  exists sf, gfinal sc = Some sf /\ C18_ModelG.q_lv sf = [] /\
     chks ([], []) (gtrace (grun sc)) = Some (q_bk sf) /\ NoDup (snd (q_bk sf)) /\
     forall id, id < N.of_nat (length (fst (q_bk sf))) -> In id (snd (q_bk sf)) \/ direct_live sf id.
 Proof. exact installed_all_returned. Qed.
@@ -79,6 +81,77 @@ Print Assumptions C18_installed_clear_is_clear.
 Theorem C18_destroy_by_clear_cache_refuted : gvalid leak_scn = true /\ gspec leak_scn (grun_with gstep_cc_variant world0 leak_scn) = false.
 Proof. exact destroy_by_clear_cache_refuted. Qed.
 Print Assumptions C18_destroy_by_clear_cache_refuted.
+
+(* ... and one object in a scripted environment: five allocators with their own books (default malloc allocator, two recording
+   malloc allocators, the base string allocator U, a string allocator T installed on top), block ids over all of them; the
+   current malloc allocator changed at any point; T installed over the cache or over U, in place or not when the object is
+   destroyed; U building a string of its own inside free_memory / alloc_memory through whatever string allocator is in force;
+   requests and releases at the cache, straight at U, at T.  The oracle judges: every block goes back only to the allocator it
+   came from, at most once, with its size, never while a buffer in it is in use; every buffer handed out -- to the scenario or
+   to U's own string -- lies inside a block obtained and NOT given back, is large enough, overlaps no buffer in use, in a block
+   only ever used for one size class; nothing warns; when the object is gone every block obtained from ANY allocator since
+   its construction began is back, except blocks of buffers in use that were not served by its cache *)
+Theorem C18_env_run_meets_spec : forall s, evalid s = true -> espec s (erun s) = true.
+Proof. exact erun_meets_espec. Qed.
+Print Assumptions C18_env_run_meets_spec.
+
+(* at the end of every valid environment scenario the object is gone, the whole trace (every call on every allocator, every
+   buffer handed out) is legal in the allocators' own books `tapplies` (ids fresh, a block back only to the allocator it came
+   from and not twice, no buffer inside memory already returned), and every block ever obtained from any allocator is back --
+   except the blocks of buffers still in use that U or T served directly *)
+Theorem C18_env_books_balanced : forall s, evalid s = true ->
+  exists qf, efinal s (erun s) = Some qf /\ v_obj (q_env qf) = None /\
+    tapplies ([], []) (etrace (erun s)) = Some (bk_of (q_b qf)) /\ NoDup (xf (q_b qf)) /\
+    (forall e, In e (q_lv qf) -> le_own e < 2) /\
+    forall id, id < xlen (q_b qf) -> In id (xf (q_b qf)) \/ In id (lids (q_lv qf)).
+Proof. exact env_books_balanced. Qed.
+Print Assumptions C18_env_books_balanced.
+
+(* the string the underlying allocator builds for itself while the cache is in force (alloc, then dealloc of that buffer) leaves
+   the cache's lists as they were -- lent an idle block of its class and got it back -- or with ONE more idle block in the
+   string's class, or (above the bound) creates and destroys a block; the non-cached list is never changed *)
+Theorem C18_env_string_life : forall r st nx st' nx' evs, map n_size (s_cache st) = class_sizes ->
+  life r st nx = (st', nx', evs) -> life_case r st nx st' nx' evs.
+Proof. exact life_cases. Qed.
+Print Assumptions C18_env_string_life.
+
+(* with an underlying allocator that does not re-enter, a request / a release / the destructor of this mode are alloc / dealloc /
+   clear_all of the cache model C18_Model (whose functions are tied to the source by the C18_src_* theorems below) *)
+Theorem C18_env_plain_request_is_alloc : forall st nx n,
+  let '(st', nx', p, e) := r_alloc None st nx n in
+  let '(st1, x) := alloc (set_next st nx) n in
+  s_cache st' = s_cache st1 /\ s_non st' = s_non st1 /\ s_warned st' = s_warned st1 /\ nx' = s_next st1 /\ o_ret x = Some p /\ e = map xu (o_evs x).
+Proof. exact plain_request_is_alloc. Qed.
+Print Assumptions C18_env_plain_request_is_alloc.
+Theorem C18_env_plain_release_is_dealloc : forall st nx p n,
+  r_dealloc None st nx p n = (fst (dealloc st p n), nx, map xu (o_evs (snd (dealloc st p n))), o_warn (snd (dealloc st p n))).
+Proof. exact plain_release_is_dealloc. Qed.
+Print Assumptions C18_env_plain_release_is_dealloc.
+Theorem C18_env_plain_destructor_is_clear_all : forall ra w st tab, ew_obj w = Some (st, tab) ->
+  estep None ra w EPop =
+  ({| ew_obj := None; ew_nx := ew_nx w; ew_cur := FU; ew_tsv := ew_tsv w; ew_res := ew_res w |},
+   mk_ei (map xu (o_evs (snd (clear_all st))) ++ [XF who_D tab node_array_size]) None false).
+Proof. exact plain_destructor_is_clear_all. Qed.
+Print Assumptions C18_env_plain_destructor_is_clear_all.
+
+(* the three red-team changes of round 5, each refuted by a computed scenario that the unchanged model passes:
+   the node table taken from the CURRENT malloc allocator but returned to the default one (M1 current at construction) *)
+Theorem C18_env_table_from_current_refuted :
+  evalid sc_tab = true /\ espec sc_tab (erun_tab_variant None None 0 eworld0 (e_ops sc_tab)) = false /\ espec sc_tab (erun sc_tab) = true.
+Proof. exact table_from_current_refuted. Qed.
+Print Assumptions C18_env_table_from_current_refuted.
+(* the destructor that uninstalls and clears only while its adaptor is still the current string allocator (T on top at destruction) *)
+Theorem C18_env_guarded_destructor_refuted :
+  evalid sc_guard = true /\ espec sc_guard (erun_with (estep_guarded_variant None None) eworld0 (e_ops sc_guard)) = false /\
+  espec sc_guard (erun sc_guard) = true.
+Proof. exact guarded_destructor_refuted. Qed.
+Print Assumptions C18_env_guarded_destructor_refuted.
+(* the destructor that clears BEFORE it uninstalls (U builds a string while the first block goes back: served the block just returned) *)
+Theorem C18_env_clear_before_uninstall_refuted :
+  evalid sc_order = true /\ espec sc_order (erun_with (estep_clear_first_variant (Some 10) None) eworld0 (e_ops sc_order)) = false /\
+  espec sc_order (erun sc_order) = true.
+Proof. exact clear_before_uninstall_refuted. Qed.
+Print Assumptions C18_env_clear_before_uninstall_refuted.
 
 (* in every reachable state the allocator accepted every call so far, all headers and buffers in all lists are pairwise
    distinct, the lists of a node hold only blocks obtained with that node's size (headers with the header size), the
